@@ -22,7 +22,7 @@ ASSUMPTIONS = [
 ]
 
 NJ = 6  # shapes of the joined item
-NT = 7  # table a criterion field may belong to
+NT = 8  # table a criterion field may belong to
 
 
 def pin(v, n):
@@ -59,6 +59,7 @@ def scenario(d, jshape):
         (Table("o"), False),                          # 4 outsider
         (Table("j", alias="other"), False),           # 5 same name as the joined table, different alias
         (AliasedQuery("zz"), False),                  # 6 a CTE that was never declared
+        (Table("f", schema="arch"), False),           # 7 same bare name as the FROM table, other schema
     ]
     return q, j, pool
 
@@ -75,12 +76,12 @@ def field_of(tbl, col):
     witness=[dict(d=0, jshape=0, lt=0, rt=2, lc=0, rc=0, swap=False, wrap=0, extra=0),
              dict(d=2, jshape=1, lt=4, rt=2, lc=0, rc=0, swap=True, wrap=1, extra=0)],
     doc="join(item).on(criterion): item shape x which table each of the two (three with `extra`) criterion fields "
-        "belongs to (7 candidates, 3 of them unavailable) x column names {x,y} x operand order x function wrapping: "
+        "belongs to (8 candidates, 4 of them unavailable) x column names {x,y} x operand order x function wrapping: "
         "JoinException raised iff a field's table is unavailable",
 )
 def c14_join(d: int, jshape: int, lt: int, rt: int, lc: int, rc: int, swap: bool, wrap: int, extra: int) -> int:
     """
-    bound: 0 <= lt <= 6 and 0 <= rt <= 6 and 0 <= lc <= 1 and 0 <= rc <= 1 and 0 <= wrap <= 1 and 0 <= extra <= 2
+    bound: 0 <= lt <= 7 and 0 <= rt <= 7 and 0 <= lc <= 1 and 0 <= rc <= 1 and 0 <= wrap <= 1 and 0 <= extra <= 2
     """
     lt, rt, lc, rc, wrap, extra = pin(lt, NT), pin(rt, NT), pin(lc, 2), pin(rc, 2), pin(wrap, 2), pin(extra, 3)
     extra = (0, 4, 5)[extra]  # no third field / third field of the declared CTE / of the outsider
